@@ -725,9 +725,12 @@ pub fn spec(id: &str, variant: &str, cancelable: bool, thorough: bool) -> Option
                     (K::MultiChild, 8),
                     (K::ChildOfLocal, 8),
                     (K::AddPropsH, 3),
-                    (K::AddPropsL, 3),
+                    (K::AddPropsL, 6),
                     (K::AddEventH, 3),
-                    (K::AddEventL, 3),
+                    // every local entry point, the deprecated one included, inside scopes of
+                    // unsampled spans nested in scopes of sampled ones
+                    (K::AddEventL, 9),
+                    (K::SetLocalParent, 16),
                     (K::CollectorStart, 3),
                     (K::PushChildSpans, 5),
                     (K::CtxOfSpan, 5),
